@@ -137,6 +137,25 @@ func c03Perturb(sc *L1Scenario, v L1Op, pt, other, copyOn2 *ProposedTree, leafId
 			}
 		}
 	})
+	// --- same value, other spelling: the leaf is computed from EXACTLY the claimed text ---
+	respell := func(t string) string {
+		if u := strings.ToUpper(t); u != t {
+			return u
+		}
+		return strings.ToLower(t)
+	}
+	add("recipient: same address, other letter case (valid bech32)", func(o *L1Op) { o.To = respell(o.To) })
+	add("sender: same text, other letter case", func(o *L1Op) { o.From = respell(o.From) })
+	add("sender and recipient: other letter case", func(o *L1Op) { o.From, o.To = respell(o.From), respell(o.To) })
+	add("denom: other letter case", func(o *L1Op) { o.Denom = respell(o.Denom) })
+	add("sender: a leading zero inserted after the hex prefix / in front", func(o *L1Op) {
+		if strings.HasPrefix(o.From, "0x") {
+			o.From = "0x0" + o.From[2:]
+		} else {
+			o.From = "0" + o.From
+		}
+	})
+	add("sender: trailing space", func(o *L1Op) { o.From = o.From + " " })
 	add("amount+2*2^64", func(o *L1Op) { o.Amt.Add(o.Amt, new(big.Int).Lsh(big.NewInt(1), 65)) })
 	add("amount+3*2^64", func(o *L1Op) { o.Amt.Add(o.Amt, new(big.Int).Mul(big.NewInt(3), new(big.Int).Lsh(big.NewInt(1), 64))) })
 	add("amount+2^63", func(o *L1Op) { o.Amt.Add(o.Amt, new(big.Int).Lsh(big.NewInt(1), 63)) })
@@ -211,8 +230,31 @@ func c03Perturb(sc *L1Scenario, v L1Op, pt, other, copyOn2 *ProposedTree, leafId
 			o.Proofs = append(o.Proofs[:j+1:j+1], append([][]byte{append([]byte{}, o.Proofs[j]...)}, o.Proofs[j+1:]...)...)
 		})
 	}
+	// zero-length entries (nil and empty, 1..3 of them) at every position, also as the only entries of an empty proof
+	for j := 0; j <= len(v.Proofs); j++ {
+		j := j
+		add(fmt.Sprintf("proof: %d zero-length entries inserted at [%d]", 1+j%3, j), func(o *L1Op) {
+			var ins [][]byte
+			for k := 0; k < 1+j%3; k++ {
+				if (j+k)%2 == 0 {
+					ins = append(ins, nil)
+				} else {
+					ins = append(ins, []byte{})
+				}
+			}
+			o.Proofs = append(o.Proofs[:j:j], append(ins, o.Proofs[j:]...)...)
+		})
+	}
+	if len(v.Proofs) > 1 {
+		j := r.Intn(len(v.Proofs) - 1)
+		add(fmt.Sprintf("proof[%d] and [%d] merged into one 64-byte entry", j, j+1), func(o *L1Op) {
+			m := append(append([]byte{}, o.Proofs[j]...), o.Proofs[j+1]...)
+			o.Proofs = append(o.Proofs[:j:j], append([][]byte{m}, o.Proofs[j+2:]...)...)
+		})
+	}
 	if len(v.Proofs) > 0 {
 		j := r.Intn(len(v.Proofs))
+		add(fmt.Sprintf("proof[%d] replaced by a zero-length entry", j), func(o *L1Op) { o.Proofs[j] = []byte{} })
 		add(fmt.Sprintf("proof[%d] 31 bytes", j), func(o *L1Op) { o.Proofs[j] = o.Proofs[j][:31] })
 		add(fmt.Sprintf("proof[%d] 33 bytes", j), func(o *L1Op) { o.Proofs[j] = append(o.Proofs[j], 0) })
 		add("proof reversed", func(o *L1Op) {
@@ -316,6 +358,18 @@ func c03Setup(x *c03Run, nA int, rep *Report) c03Trees {
 	leavesOf := func(pt *ProposedTree) [][]byte { return pt.Tree.Levels[0] }
 	A := sc.MakeTree(1, nA)
 	A.Idx = 1
+	// some leaves are committed with the UPPER-CASE spelling of the recipient / sender text: claimed
+	// verbatim they must be paid, in lower case they must be refused
+	for i := range A.Tree.Ws {
+		switch i % 4 {
+		case 1:
+			A.Tree.Ws[i].To = strings.ToUpper(A.Tree.Ws[i].To)
+		case 2:
+			A.Tree.Ws[i].From = strings.ToUpper(A.Tree.Ws[i].From)
+		}
+	}
+	A.Tree = BuildTree(A.Tree.Ws)
+	A.Root = outputRootOf(A.Version, A.Tree.Root(), A.BHash)
 	x.propose(1, 1, 10, A.Root, leavesOf(A), period)
 	sc.Advance(sec)
 	A2 := sc.MakeTree(1, 1+r.Intn(6))
@@ -490,6 +544,12 @@ func c03Monitor(rep *Report, c *L1Case, x *c03Run) {
 			}
 			if strings.HasPrefix(d, "multi:") {
 				d = "multi-field"
+			}
+			if strings.HasPrefix(d, "proof: ") && strings.Contains(d, "zero-length entries inserted") {
+				d = "proof: 1..3 zero-length entries inserted at [j]"
+			}
+			if strings.Contains(d, "merged into one 64-byte entry") {
+				d = "proof[j] and [j+1] merged into one 64-byte entry"
 			}
 			if strings.HasPrefix(d, "proof cut") {
 				d = "proof cut (inner node as leaf)"
@@ -743,7 +803,7 @@ func genC03(seed uint64, tier string, outdir string) *Report {
 	rep := NewReport("C03", seed, tier)
 	rep.Rule = "a case is one L1 history (two bridges, five outputs, every leaf of tree A claimed among perturbed claims); distinct by hash of the op list; " +
 		"non-trivial = at least one valid claim was paid and at least one perturbed claim was rejected"
-	nModel, nMon := 16, 8
+	nModel, nMon := 16, 6
 	if tier == "thorough" {
 		nModel, nMon = 160, 200
 	}
@@ -791,11 +851,7 @@ func genC03(seed uint64, tier string, outdir string) *Report {
 	for k := 0; k < nModel; k++ {
 		nA := modelSizes[(k+int(seed))%len(modelSizes)]
 		run(k, nA, func(r *Rng) map[int]bool {
-			m := map[int]bool{r.Intn(nA): true}
-			if nA <= 3 {
-				m[r.Intn(nA)] = true
-			}
-			return m
+			return map[int]bool{r.Intn(nA): true}
 		}, true)
 	}
 	// monitor-only cases: trees of 1..40 leaves, every leaf, every perturbation
@@ -807,7 +863,7 @@ func genC03(seed uint64, tier string, outdir string) *Report {
 		run(nModel+k, nA, func(r *Rng) map[int]bool { return nil }, false)
 	}
 	// handler level (no rollback): every perturbation of every leaf
-	hs := []int{1, 2, 3, 5, 8, 13}
+	hs := []int{1, 2, 3, 5, 8}
 	if tier == "thorough" {
 		hs = []int{1, 2, 3, 4, 5, 6, 7, 8, 9, 13, 16, 21, 27, 33, 40}
 	}
